@@ -589,12 +589,19 @@ func (g *commonGen) template(w *World, name string, b int) []Step {
 		return out
 	case "halfauth_settings":
 		// a cookie-authenticated (half-auth) session tries to change 2FA settings
-		out := []Step{{Kind: "login", B: b, A: a, Sec: pw(a), RM: true}, {Kind: "drop_session", B: b}}
+		out := []Step{{Kind: "login", B: b, A: a, Sec: pw(a), RM: true}}
+		// A cookie is only issued by the password step (the code step carries
+		// no remember-me value): an account has cookie and second factor when
+		// it enrolled after the cookie was issued
+		if c.hasSetup("totp") && !c.EmailAuth2FA && a >= 0 && a < len(w.KB.TOTPSecret) && w.KB.TOTPSecret[a] == "" && w.KB.SMSNumber[a] == "" && g.r.Bool() {
+			out = append(out, Step{Kind: "totp_setup", B: b, A: a}, Step{Kind: "totp_confirm", B: b, A: a, Sec: &SecretRef{Kind: "totp_pending", A: b}})
+		}
+		out = append(out, Step{Kind: "drop_session", B: b})
 		if g.r.Bool() {
 			// otherwise the very first request the cookie authenticates is the sensitive one
 			out = append(out, g.fill(w, "probe", b))
 		}
-		if g.r.Chance(1, 3) {
+		if g.r.Chance(1, 2) {
 			// the password again (for an account with a second factor this only parks a login)
 			out = append(out, Step{Kind: "login", B: b, A: a, Sec: pw(a)})
 		}
